@@ -29,7 +29,7 @@ for pdir in sorted(glob.glob(os.path.join(src, "C*"))):
     ch = meta.get("changes", [])
     info = ch[n - 1] if len(ch) >= n else {}
     evals = {}
-    for tag in ("eval", "evalb", "tests"):
+    for tag in ("eval", "evalb", "evalc", "tests"):
       f = os.path.join(pdir, "%s%d.json" % (tag, n))
       if os.path.exists(f):
         try:
@@ -47,7 +47,8 @@ for pdir in sorted(glob.glob(os.path.join(src, "C*"))):
                      "the 281 pinned test ids run in a scratch copy with the patch applied" % prop,
                  pinned_tests="%s/%s pinned tests pass with the patch%s" % (
                      t.get("passed"), t.get("pinned"), "" if not t.get("missing") else " MISSING " + ",".join(t["missing"])),
-                 first_evaluation=evals.get("eval"), after_strengthening=evals.get("evalb")))
+                 first_evaluation=evals.get("eval"), after_strengthening=evals.get("evalb"),
+                 final_check=evals.get("evalc")))
     json.dump(m, open(os.path.join(out, "meta.json"), "w"), indent=1)
     e1 = evals.get("eval", {})
     e2 = evals.get("evalb", {})
@@ -55,6 +56,15 @@ for pdir in sorted(glob.glob(os.path.join(src, "C*"))):
       ks = [k for k in e if k.startswith("check_") and not k.endswith("_first")]
       return ", ".join("%s %s" % (k[6:], e[k].split()[0]) for k in ks) or "-"
     v1, v2 = verdict(e1), verdict(e2)
+    e3 = evals.get("evalc", {})
+    if prop == "C08" and (pid != "C08" or e2):
+      # between commits ca63670 and 8ee82e8 C08 alarmed on the unchanged tree (DESIGN.md 8.4 item 12):
+      # verdicts of that period are void, only the run against the corrected check counts
+      if pid != "C08":
+        v1 = "void (C08 was alarming on the unchanged tree)"
+      v2 = verdict(e3) + " (corrected check)" if e3 else "void"
+    elif e3:
+      v2 = (v2 + " / " if v2 != "-" else "") + "final check: " + verdict(e3)
     if "BEFORE the first recorded evaluation" in (info.get("note") or ""):
       v1, v2 = "not run on the earlier check (outside its bound, see meta.json)", v1
     rows.append((pid, n, (info.get("needs") or "")[:110].replace("|", "/"), e1.get("demo_clean_exit"),
